@@ -79,7 +79,7 @@ def finish(prop, tier, seed, run, wall, rule, explore=False, extra_cov=None, wri
     for skey, e in run.findings.items():
         # witness minimisation (ddmin over the strings, then shortening them) while the signature stays the same
         c = e.get("case")
-        if isinstance(c, Case) and len(c.S) > 6 and nmin < 4 and e["sig"]["fclass"] not in ("transcript-differs", "uninit-in-image", "uninit-influences-answers"):
+        if isinstance(c, Case) and len(c.S) > 6 and nmin < 4 and e["sig"]["fclass"] not in ("transcript-differs", "uninit-in-image", "uninit-influences-answers", "cpu-limit", "wall-timeout", "deadlock") and not (c.cpu and c.cpu > 120):   # (every probe of a spinning case costs its whole CPU limit)
             try:
                 import minimize
                 nmin += 1
@@ -195,7 +195,7 @@ def replay(path):
 
 # ---------------------------------------------------------------------------------------------------- dictionary-level
 def dict_check(prop, tier, seed, wd, explore, limit, kinds, write_evidence, cases, rule, nontrivial=P.nt_fc_or_any, post=None, required=(), flavors=("asan",)):
-    for fl in flavors:
+    for fl in sorted(set(flavors) | set(c.flavor for c in cases)):
         build(fl)
     known = Known()
     run = DictRun(prop, tier, seed, wd, known)
@@ -669,6 +669,9 @@ class CompCase(PoolCase):
         return {"driver": "comp_driver", "mode": self.mode, "flavor": self.flavor, "seed": self.seed, "args": self.args, "tag": self.tag, "cold": bool(getattr(self, "cold", False))}
 
 class CompRun(PoolRun):
+    def comp_cpu(self):
+        # component cases take seconds (quick) to a few minutes (thorough) of CPU: the limit only ever fires on a spin
+        return 400 if self.tier == "quick" else 3000
     def run_pool_case(self, case):
         cid = self.runner.next_id()
         outp = os.path.join(self.workdir, "k%d.out" % cid)
@@ -678,13 +681,13 @@ class CompRun(PoolRun):
             d = os.path.join(self.workdir, "cold%d" % cid)
             os.makedirs(d, exist_ok=True)
             try:
-                res = self.runner.run(base + ["--save-dir", d], cpu_s=3000, wall_s=3600, out_path=None)
+                res = self.runner.run(base + ["--save-dir", d], cpu_s=self.comp_cpu(), wall_s=3600, out_path=None)
                 if res["status"] == "ok":
-                    res = self.runner.run(base + ["--load-dir", d], cpu_s=3000, wall_s=3600, out_path=None)
+                    res = self.runner.run(base + ["--load-dir", d], cpu_s=self.comp_cpu(), wall_s=3600, out_path=None)
             finally:
                 shutil.rmtree(d, ignore_errors=True)
             return case, res
-        res = self.runner.run(base, cpu_s=3000, wall_s=3600, out_path=None)
+        res = self.runner.run(base, cpu_s=self.comp_cpu(), wall_s=3600, out_path=None)
         return case, res
 
     def record_pool(self, tup):
@@ -739,7 +742,7 @@ class CompRun(PoolRun):
                     e["count"] += 1
 
 def comp_check(prop, tier, seed, wd, explore, we, cases, rule, required=(), extra=None, dict_cases=None, dict_nt=None):
-    flavors = sorted(set(c.flavor for c in cases) | ({"asan"} if dict_cases else set()))
+    flavors = sorted(set(c.flavor for c in cases) | set(c.flavor for c in (dict_cases or ())) | ({"asan"} if dict_cases else set()))
     for f in flavors:
         build(f)
     run = CompRun(prop, tier, seed, wd, Known())
@@ -806,8 +809,8 @@ def c18(prop, tier, seed, wd, explore, limit, kinds, we):
     cases = spread("codes", "asan", seed, 16, 150 if tier == "quick" else 2000)
     # decode(encode) through the real users of the chunk table, on texts realising chosen frequency shapes
     HT = ["HTFC", "HHTFC", "RPHTFC", "HASHHF", "HASHUFFDAC"]
-    dc = P.basic_cases(prop, seed, tier, ops=("locate", "extract", "extractTable"), kinds=HT, per_input_states=1, families=["skewed", "uniform2", "uniform253", "lcp128x", "repetitive", "numerals", "extremes", "len1", "mixed", "words", "longshort", "longcode", "dense", "uniform3", "uniform4", "tinydense"],
-                       n_random=48 if tier == "quick" else 300, corner=True)
+    dc = P.basic_cases(prop, seed, tier, ops=("locate", "extract", "extractTable"), kinds=HT, per_input_states=1, families=["skewed", "uniform2", "uniform253", "lcp128x", "repetitive", "numerals", "extremes", "len1", "mixed", "words", "longshort", "longcode", "dense", "uniform3", "uniform4", "tinydense", "stempairs"],
+                       n_random=51 if tier == "quick" else 300, corner=True)
     dc += P.numeral_sweep(prop, seed, tier, ("locate", "extract"), kinds=("HTFC", "HHTFC"))
     # texts of >= 2^17 characters with geometric symbol counts: codewords longer than the 16-bit chunk (decoding subtrees)
     for v in range(2 if tier == "quick" else 8):
@@ -824,12 +827,19 @@ def c18(prop, tier, seed, wd, explore, limit, kinds, we):
         for kind in ("HASHHF", "HASHUFFDAC"):
             for ov in (0, 1, 10, 25, 50, 100, 300):
                 dc.append(Case(kind, (ov,), "tinydense:%d:%d" % (len(S), v), S, r.choice(["fresh", "own"]), r.choice([1, 2, 3]) if kind == "HASHHF" else 1, ("locate", "extract", "extractTable"), seed=gen.splitmix(seed, v, 37)))
+    # stems x tiny suffixes in buckets of two: the chunk that ends a bucket header reaches over the whole internal string and into the next header
+    for v in range(24 if tier == "quick" else 200):
+        r = P.rng_for(seed, prop, 996000 + v)
+        S = gen.fam_stempairs(r, r.choice([400, 2000, 4000]))
+        for kind in (("HHTFC", "HTFC") if v % 3 == 0 else ("HHTFC",)):
+            dc.append(Case(kind, (2,), "stempairs:%d:%d" % (len(S), v), S, r.choice(["fresh", "own"]), 1, ("locate", "extract", "extractTable"), seed=gen.splitmix(seed, v, 39)))
     rule = ("code tables: Hu-Tucker and Huffman tables for seeded frequency vectors of 9 shapes (uniform, Zipf, geometric, Fibonacci-like, one dominant symbol, random with the +1 floor, two-level, text-like, few symbols) must be "
             "prefix-free (pairwise), complete (Kraft sum 1) and, for Hu-Tucker, strictly increasing as left-aligned bit strings; decode(encode) is checked through HTFC / HHTFC / RPHTFC / HASHHF / HASHUFFDAC dictionaries built on "
             "texts of skewed, tiny-alphabet, 253-symbol, long-shared-prefix and numeral shapes (locate/extract/table against the model); a case is one comp_driver process or one dictionary case")
     def dnt(case, cnt):
         return len(case.S) >= 2
-    build("asan")
+    for _fl in sorted({"asan"} | set(c.flavor for c in cases) | set(c.flavor for c in dc)):
+        build(_fl)
     run = CompRun(prop, tier, seed, wd, Known())
     t0 = time.time()
     run.run_pool_all(cases)
@@ -881,12 +891,23 @@ def c20(prop, tier, seed, wd, explore, limit, kinds, we):
         for kind in ["RPDAC", "RPFC", "HASHRPF", "HASHRPDAC", "RPHTFC"]:
             pp = P.param_vectors(kind, r, S, 1)[0]
             dc.append(Case(kind, pp, "uniform3:%d" % len(S), S, r.choice(["own", "fresh"]), 1, ("locate", "extract"), seed=gen.splitmix(seed, v, 41), cpu=300))
+    # more than 98 303 distinct pairs alive at once (the compressor's pair table has 2^17 cells and grows at 3/4): only word-structured
+    # text of about a megabyte gets there; optimised flavor, the verdicts are the model comparison and the CPU limit
+    for v in range(1 if tier == "quick" else 4):
+        r = P.rng_for(seed, prop, 670000 + v)
+        S = gen.fam_wordpairs(r, 60000 + 20000 * v, 10, 700 + 300 * v)
+        for kind in (["RPDAC"] if tier == "quick" else ["RPDAC", "HASHRPF", "RPFC"]):
+            pp = P.param_vectors(kind, r, S, 1)[0]
+            if kind == "RPFC":
+                pp = (16,)
+            dc.append(Case(kind, pp, "wordpairs:%d" % len(S), S, "fresh", 1, ("locate", "extract"), seed=gen.splitmix(seed, v, 43), flavor="fast", cpu=300, tags=("pairs_gt_98303",)))
     rule = ("Re-Pair on integer sequences of 10 shapes (no repeated pair, one string, runs, abab, Fibonacci words, copies, near-identical strings, random over 2 / 254 symbols, thousands of short strings over 3-4 letters): the caller's array is walked the way the dictionaries' "
             "compaction loops do and expanded symbol for symbol against the original; no rule side is 0 or beyond terminals+rules; getBits suffices; expandRule agrees; save/loadNoSeq reproduces the rule table; "
             "plus the five Re-Pair based dictionary kinds on the same kinds of text against the model; a case is one comp_driver process or one dictionary case")
     def dnt(case, cnt):
         return len(case.S) >= 2
-    build("asan")
+    for _fl in sorted({"asan"} | set(c.flavor for c in cases) | set(c.flavor for c in dc)):
+        build(_fl)
     run = CompRun(prop, tier, seed, wd, Known())
     t0 = time.time()
     run.run_pool_all(cases)
